@@ -12,11 +12,11 @@ from vlib import sfgen
 PROP = "C01"
 LEVEL = "proof"
 COQ_DIRS = ["C01", "FockAxes", "Bosonic", "BosonicAgree", "C07"]
-COQ_TARGETS = ["Gen/GaussCirc.vo", "Base/GaussTac.vo", "Base/PhaseSpace.vo", "C01/GaussPhaseSpace.vo"] + list(fa.COQ_TARGETS) + list(bm.COQ_TARGETS) + list(bm.COQ_TARGETS_AGREE)
+COQ_TARGETS = ["Gen/GaussCirc.vo", "Base/MatOps.vo", "Gen/GaussMat.vo", "C07/GaussPhysical.vo", "C07/GaussPassive.vo", "C01/GaussReadout.vo", "Base/GaussTac.vo", "Base/PhaseSpace.vo", "C01/GaussPhaseSpace.vo"] + list(fa.COQ_TARGETS) + list(bm.COQ_TARGETS) + list(bm.COQ_TARGETS_AGREE)
 PROPERTIES_FILE = "Properties/C01.v"
 EXTRA_PROPERTIES_FILES = [fa.PROPERTIES_FILE, bm.PROPERTIES_FILE, bm.PROPERTIES_FILE_AGREE]
 ALLOWED_AXIOMS = set()
-TRANSLATORS = [gc.translate_gausscirc]
+TRANSLATORS = [gc.translate_gausscirc, gc.translate_gaussmat_fn]
 RULE = ("(a) generated-function and read-out correspondence (GaussianModes methods, scovmatxp/smeanxp) at binary64; (b) differential search: random "
         "programs (n = 1..4 modes, 1..7 commands over gates/channels/preparations incl. daggers, zero and multiple-of-pi parameters, any ordered "
         "targets) run on gaussian, bosonic and an independent numpy phase-space reference; fock-pure vs fock-mixed (dm, incl. non-Gaussian gates); "
@@ -245,6 +245,10 @@ def correspondence(ctx):
     bad = gc.correspondence_readout(ctx, ctx.budget(60, 600), tag="c01ro")
     if bad:
         ctx.disagreement("corr:readout", "model of scovmatxp/smeanxp disagrees with the implementation", {"check": "readout", "n": bad[0][0]})
+    bad = gc.correspondence_apply_u(ctx, ctx.budget(60, 600), tag="c01au")
+    if bad:
+        ctx.disagreement("corr:gaussmat:apply_u", "generated model of GaussianModes.apply_u disagrees with the implementation (%s U, n = %d)" % (bad[0]["kind"], bad[0]["n"]),
+                         {"check": "apply_u", "kind": bad[0]["kind"], "n": bad[0]["n"]})
 
 
 GNAMES = list(sfgen.GAUSSIAN_GATES) + list(sfgen.CHANNELS) + list(sfgen.PREPS)
@@ -299,7 +303,9 @@ def search(ctx):
             ctx.counterexample("gbr:raises:%s" % type(e).__name__, "running %s raised %r" % (spec, e), data)
             continue
         ctx.case(spec, nontrivial=nontrivial(spec), bucket="gauss-bosonic-ref")
-        tol = 2e-5 if meas else 1e-8  # homodyne is simulated with a finitely squeezed (eps = 2e-4) projector
+        # homodyne is simulated with a finitely squeezed (eps = 2e-4) projector; errors are relative to the size of the covariance
+        # (false alarm of seed 0 after the generator change: |V| ~ 31 from a strongly squeezed Gaussian(V, r) gave 2.7e-5 absolute)
+        tol = (2e-5 if meas else 1e-8) * max(1.0, float(np.abs(r[1]).max()))
         gb, gr, br = cmp_gauss(g, b, tol), cmp_gauss(g, r, tol), cmp_gauss(b, r, tol)
         if gb or gr or br:
             spec1 = shrink(spec, lambda s: any_diff(s))
@@ -354,7 +360,7 @@ def any_diff(spec):
     g = bc.gauss_obs(bc.run(spec, "gaussian"))
     r = reference(spec)
     b = r if gauss_only(spec) else bc.gauss_obs(bc.run(spec, "bosonic"))
-    tol = 2e-5 if any(c[0] in sfgen.MEASURE_SEL for c in spec["cmds"]) else 1e-8
+    tol = (2e-5 if any(c[0] in sfgen.MEASURE_SEL for c in spec["cmds"]) else 1e-8) * max(1.0, float(np.abs(r[1]).max()))
     return cmp_gauss(g, b, tol) or cmp_gauss(g, r, tol) or cmp_gauss(b, r, tol)
 
 
